@@ -196,6 +196,14 @@ def scenarios(tier):
                                         weight=60 if big else 10, shards=2 if big else 1, max_paths=60000,
                                         bounds=dict(lp=lp, np=npol, rows=N, features=d, decisions=kd, rewards=kr, contexts=kc,
                                                     query=kq)))
+    if q:
+        # Clusters hands the caller's C-ordered array to k-means (a possible in-place modification must not reach the caller)
+        for kc, kd in (('array', 'array'), ('list', 'list'), ('fortran', 'series')):
+            out.append(Scenario('ucb1.clusters:2.N2d2.%s-array-%s-list' % (kd, kc), containers,
+                                dict(lp='ucb1', npol='clusters:2', N=2, d=2, kd=kd, kr='array', kc=kc, kq='list', m=1,
+                                     binarizer=False, partial=True), weight=80, shards=4, max_paths=60000,
+                                bounds=dict(lp='ucb1', np='clusters:2', rows=2, features=2, decisions=kd, rewards='array',
+                                            contexts=kc, query='list')))
     out.append(Scenario('twin.linucb', containers, dict(lp='linucb', npol=None, N=2, d=2, kd='series', kr='array',
                                                         kc='dataframe', kq='fortran', twin=True), twin=True))
     return out
